@@ -1,12 +1,14 @@
 """Calls: inlining of repo functions, models of builtins, str methods, re, datetime, numdb."""
-import ast, re
+import ast
+import os, re
 from .values import *
 from .joins import Maybe
 from .expr import DictV
 from .subs import AbsIter, FuncSet, MethodSet
 from .regexlang import RegexLang
 
-MAXDEPTH = 10
+# the thorough tier follows calls four levels deeper
+MAXDEPTH = 14 if os.environ.get('SA_THOROUGH') else 10
 INT_MAX_DIGITS = 4300
 
 
